@@ -156,6 +156,9 @@ class ResourcePool:
                 container.suspend_container()
                 self.suspending_containers.append(container)
                 self.active_containers.remove(container)
+            # a suspended container left the active list holding memory; re-sum
+            # so its usage is not reported (or counted by the OOM killer) anymore
+            self._reconcile_consumed_ram()
         
         results = []
         if len(assignments) > 0:
